@@ -326,6 +326,17 @@ impl<'a> Ctx<'a> {
         file.add_export(name, var)
     }
 
+    /// Like [`Ctx::register_export`], but a later registration of the same name replaces the earlier one.
+    pub(crate) fn register_export_latest(&self, name: String, var: PrimitiveFlagsPair) -> Result<()> {
+        let file = self
+            .function
+            .location()
+            .upgrade()
+            .context("could not upgrade reference to file")?;
+        file.set_export(name, var);
+        Ok(())
+    }
+
     /// Store a variable to this function. Will get dropped when the function goes out of scope.
     pub(crate) fn register_variable(&self, name: Cow<'static, str>, var: Primitive) -> Result<()> {
         self.call_stack.borrow_mut().register_variable(name, var)
